@@ -3,7 +3,7 @@
 prefix=$1; base=$2; p=$3; shift 3
 for x in "$@"; do
   echo "=== $p-$prefix$x"
-  MUT_PREFIX=$prefix timeout 3000 python3 /verif/tools/mutant.py $p $base$p $x 2>&1 | python3 -c "
+  MUT_PREFIX=$prefix timeout 3000 python3 $(dirname $0)/mutant.py $p $base$p $x 2>&1 | python3 -c "
 import json,sys
 try:
     r=json.load(sys.stdin)
